@@ -43,6 +43,7 @@ import (
 )
 
 type c13Op struct {
+	// turnover: N counters named Name with the tag sets {turn: i, k: v}; turnrep: report V through counter N of turnover H
 	Op      string  `json:"op"` // alloc | hist | rep | samp | flush | bucket (a bucket handle of hist H) | burst
 	P       int     `json:"p,omitempty"`
 	K       int     `json:"k,omitempty"` // 1 counter, 2 gauge, 3 timer
@@ -411,6 +412,7 @@ type c13Result struct {
 	Batches  int
 	O        c13Obs
 	SendCoq  bool
+	NoModel  bool // the history is checked by the direct predicate only
 	BFlag    bool
 }
 
@@ -516,6 +518,7 @@ func c13Run(c *c13Case, waitClock bool) (res c13Result) {
 		model int // index in the model's handle table
 		// a bucket handle (op "bucket"): the histogram it belongs to and what a sample through it must look like
 		b     tally.CachedHistogramBucket
+		many  []tally.CachedCount // op "turnover": its N counters
 		hist  *handle
 		bwant *c13Want // nil: the handle is a no-op (no such bucket / other kind's method)
 	}
@@ -655,6 +658,22 @@ func c13Run(c *c13Case, waitClock bool) (res c13Result) {
 		case "flush":
 			r.Flush()
 			evs[p] = append(evs[p], Ev{K: 6, Src: -1})
+		case "turnover":
+			// N counters with N distinct, not yet converted tag sets: more than the reporter's pool of tag slices holds
+			hd := &handle{op: o, many: make([]tally.CachedCount, 0, o.N)}
+			for i := 0; i < o.N; i++ {
+				hd.many = append(hd.many, r.AllocateCounter(string(o.Name), map[string]string{"turn": strconv.Itoa(i), "k": "v"}))
+			}
+			handles[idx] = hd
+			res.NoModel = true
+		case "turnrep":
+			hd := handles[o.H]
+			if hd == nil || hd.op.Op != "turnover" || o.N >= len(hd.many) {
+				return
+			}
+			hd.many[o.N].ReportCount(o.V)
+			wants[p] = append(wants[p], &c13Want{P: p, Name: string(hd.op.Name), Type: 1, Count: o.V,
+				Tags: c13MapKey(map[string]string{"turn": strconv.Itoa(o.N), "k": "v"}), TAfter: time.Now().UnixNano()})
 		case "bucket":
 			hd := handles[o.H]
 			if hd == nil || hd.op.Op != "hist" {
@@ -1056,6 +1075,30 @@ func c13GenTags(r *Rng, plain bool) (map[B]B, int) {
 	return m, 0
 }
 
+// pool turnover: "every batch carries the configured common tags including service
+// and env" — before and after more distinct tag sets were converted on the reporter
+// than its pool of tag slices holds (DefaultMaxQueueSize), and every metric still
+// carries "the tags it was allocated with"
+func c13GenTurnover(r *Rng) c13Case {
+	c := c13Case{Kind: "exact", Producers: 1}
+	c13GenConfig(r, &c)
+	n := m3.DefaultMaxQueueSize + r.Range(4, 300)
+	c.Ops = []c13Op{
+		{Op: "alloc", K: 1, Name: "before", Tags: map[B]B{"a": "b"}},
+		{Op: "rep", H: 0, V: 1}, {Op: "flush"},
+		{Op: "turnover", Name: "tn", N: n},
+		{Op: "rep", H: 0, V: 2},
+	}
+	for _, i := range []int{0, 1, m3.DefaultMaxQueueSize - 4, m3.DefaultMaxQueueSize - 3, m3.DefaultMaxQueueSize - 2, m3.DefaultMaxQueueSize - 1, m3.DefaultMaxQueueSize, n - 1, r.Intn(n), r.Intn(n)} {
+		c.Ops = append(c.Ops, c13Op{Op: "turnrep", H: 3, N: i, V: int64(i) + 10})
+	}
+	c.Ops = append(c.Ops, c13Op{Op: "flush"},
+		c13Op{Op: "hist", Name: "after", Tags: map[B]B{"late": "tag"}, B: []int64{1000}, Dur: true},
+		c13Op{Op: "samp", H: len(c.Ops) + 1, Ub: 1000, Dur: true, V: 7},
+		c13Op{Op: "rep", H: 0, V: 3})
+	return c
+}
+
 // tag-set sizes around the capacity of the pooled tag slices (batchPoolSize = 10) and well beyond
 var c13ManyTags = []int{9, 10, 11, 12, 13, 17, 25, 40}
 
@@ -1437,7 +1480,7 @@ func init() {
 				key = hashOf(c)
 			}
 			term := ""
-			if res.SendCoq && res.Reported <= 900 && !(witness && res.Fail != "") {
+			if res.SendCoq && !res.NoModel && res.Reported <= 900 && !(witness && res.Fail != "") {
 				term = gcase(ctx.Res.Evaluations, res.Params, res.In, res.Obs)
 			}
 			ctx.Case(c, term, c13Class4(c, &res), key)
@@ -1511,6 +1554,10 @@ func init() {
 		}
 		for _, c := range c13DirectedSizes() {
 			c := c
+			one(&c, false)
+		}
+		for i, nt := 0, ctx.N(3, 12); i < nt; i++ {
+			c := c13GenTurnover(ctx.R)
 			one(&c, false)
 		}
 		// shared handles: small histories through the model, large ones by the direct predicate only
